@@ -186,6 +186,51 @@ def vecVarP (f : Bytes → Out CqlVal) : Nat → Bytes → Out (List CqlVal)
           | .err e => .err e
           | .ok vs => .ok (v :: vs)
 
+/-- `VectorIterator::next_constant_length_elem`: one item (or `None` when exhausted), the new `remaining`, the slice. -/
+def vecNextFixedP (f : Bytes → Out CqlVal) (size remaining : Nat) (bs : Bytes) :
+    Out (Option (Except DeErr CqlVal) × Nat × Bytes) :=
+  if remaining = 0 then .ok (none, 0, bs)
+  else match readNP size bs with
+    | .panic s => .panic s
+    | .err e => .ok (some (.error e), remaining - 1, bs)
+    | .ok (none, rest) => .ok (some (.error .expectedNonNull), remaining - 1, rest)
+    | .ok (some b, rest) =>
+      match f b with
+      | .panic s => .panic s
+      | .err e => .ok (some (.error e), remaining - 1, rest)
+      | .ok v => .ok (some (.ok v), remaining - 1, rest)
+
+/-- `VectorIterator::nth(n)` on fixed-size elements (`value.rs:1344-1368`, after fix 73c0abc): `n >= remaining` ends
+the iterator; otherwise `n.saturating_mul(element_length)` bytes are skipped with `read_n_bytes`, `remaining -= n + 1`
+on a failed skip (`n + 1` and the subtraction are `usize` operations), `remaining -= n` otherwise, then one element. -/
+def vecNthFixedP (f : Bytes → Out CqlVal) (size remaining n : Nat) (bs : Bytes) :
+    Out (Option (Except DeErr CqlVal) × Nat × Bytes) :=
+  if n ≥ remaining then .ok (none, 0, bs)
+  else if n > 0 then
+    let skip := min (n * size) USIZE_MAX
+    match readNP skip bs with
+    | .panic s => .panic s
+    | .err e =>
+      if n + 1 > USIZE_MAX then .panic "n + 1 (usize overflow)"
+      else if remaining < n + 1 then .panic "self.remaining -= n + 1 (usize underflow)"
+      else .ok (some (.error e), remaining - (n + 1), bs)
+    | .ok (_, rest) =>
+      if remaining < n then .panic "self.remaining -= n (usize underflow)"
+      else vecNextFixedP f size (remaining - n) rest
+  else vecNextFixedP f size remaining bs
+
+/-- `VectorIterator::size_hint` / `ExactSizeIterator::len` (`assert_eq!(upper, Some(lower))` in `len`). -/
+def vecSizeHintP (remaining : Nat) : Out (Nat × Option Nat) :=
+  let hint := (remaining, some remaining)
+  if hint.2 ≠ some hint.1 then .panic "ExactSizeIterator::len: assert_eq!(upper, Some(lower))" else .ok hint
+
+/-- `MapIterator::size_hint`: `self.raw_iter.len() / 2` (the inner `len()` asserts its hint is exact). -/
+def mapSizeHintP (rawRemaining : Nat) : Out (Nat × Option Nat) :=
+  match vecSizeHintP rawRemaining with
+  | .panic s => .panic s
+  | .err e => .err e
+  | .ok (l, _) => .ok (l / 2, some (l / 2))
+
 /-- `ColumnType::type_size_for_vector` with `usize::saturating_mul`. -/
 def sizeForVectorSat : CqlTy → Option Nat
   | .native n => n.sizeForVector
@@ -342,34 +387,60 @@ def decCellP (u : Bytes → Bool) (t : CqlTy) : Option Bytes → Out CqlVal
   | none => .ok .null
   | some b => decValP u t b
 
-/-- `Row::deserialize(ColumnIterator)`: `Vec::with_capacity(columns)`, then per column `ColumnIterator::next`
-(`self.index.next().expect(…)` on the `0usize..` range, then `read_cql_bytes`) and `Option<CqlValue>::deserialize`.
-`idx` is the range's position. -/
-def rowP (u : Bytes → Bool) : List CqlTy → Nat → Bytes → Out (List CqlVal × Bytes)
-  | [], _, bs => .ok ([], bs)
-  | t :: ts, idx, bs =>
-    if idx ≥ USIZE_MAX then .panic "RangeFrom<usize> iterator exhausted"
-    else match readCqlBytesP bs with
+/-- The row-skipping loop of `RawRowIterator::next` (it runs BEFORE the row is handed to `Row::deserialize`): the raw
+cells of the row and the rest of the buffer, or the raw read error. -/
+def skipCellsP : Nat → Bytes → Out (List (Option Bytes) × Bytes)
+  | 0, bs => .ok ([], bs)
+  | n + 1, bs =>
+    match readCqlBytesP bs with
+    | .panic s => .panic s
+    | .err e => .err e
+    | .ok (c, rest) =>
+      match skipCellsP n rest with
       | .panic s => .panic s
       | .err e => .err e
-      | .ok (cell, rest) =>
-        match decCellP u t cell with
+      | .ok (cs, r) => .ok (c :: cs, r)
+
+/-- `Row::deserialize(ColumnIterator)`: `Vec::with_capacity(columns)`, then per column `ColumnIterator::next`
+(`self.index.next().expect(…)` on the `0usize..` range; the cell itself was already validated by the skip loop) and
+`Option<CqlValue>::deserialize`.  `idx` is the range's position. -/
+def decCellsP (u : Bytes → Bool) : List CqlTy → Nat → List (Option Bytes) → Out (List CqlVal)
+  | [], _, _ => .ok []
+  | _ :: _, _, [] => .ok []
+  | t :: ts, idx, c :: cs =>
+    if idx ≥ USIZE_MAX then .panic "RangeFrom<usize> iterator exhausted"
+    else match decCellP u t c with
+      | .panic s => .panic s
+      | .err e => .err e
+      | .ok v =>
+        match decCellsP u ts (idx + 1) cs with
         | .panic s => .panic s
         | .err e => .err e
-        | .ok v =>
-          match rowP u ts (idx + 1) rest with
-          | .panic s => .panic s
-          | .err e => .err e
-          | .ok (vs, r) => .ok (v :: vs, r)
+        | .ok vs => .ok (v :: vs)
 
-/-- `rows_iter::<Row>()` consumed until the first error (what the harness does): number of rows decoded and
-whether it stopped on an error (`none` = all `n` rows decoded). -/
-def rowsP (u : Bytes → Bool) (ts : List CqlTy) : Nat → Nat → Bytes → Out (Nat × Option DeErr)
-  | 0, done, _ => .ok (done, none)
-  | n + 1, done, bs =>
-    match rowP u ts 0 bs with
+/-- One item of `rows_iter::<Row>()`. -/
+def rowP (u : Bytes → Bool) (ts : List CqlTy) (bs : Bytes) : Out (List CqlVal × Bytes) :=
+  match skipCellsP ts.length bs with
+  | .panic s => .panic s
+  | .err e => .err e
+  | .ok (cells, rest) =>
+    match decCellsP u ts 0 cells with
     | .panic s => .panic s
-    | .err e => .ok (done, some e)
-    | .ok (_, rest) => rowsP u ts n (done + 1) rest
+    | .err e => .err e
+    | .ok vs => .ok (vs, rest)
+
+/-- `rows_iter::<Row>()` consumed until the first error (what the harness does): the rows decoded, and the kind of
+the error it stopped on (`none` = all `n` rows decoded). -/
+def rowsP (u : Bytes → Bool) (ts : List CqlTy) : Nat → Bytes → Out (List (List CqlVal) × Option DeErr)
+  | 0, _ => .ok ([], none)
+  | n + 1, bs =>
+    match rowP u ts bs with
+    | .panic s => .panic s
+    | .err e => .ok ([], some e)
+    | .ok (vs, rest) =>
+      match rowsP u ts n rest with
+      | .panic s => .panic s
+      | .err e => .err e
+      | .ok (rows, e) => .ok (vs :: rows, e)
 
 end ScyllaVerif.C08V
